@@ -90,7 +90,9 @@ func genLabels(r *rand.Rand, n int) []byte {
 }
 
 func genScore(r *rand.Rand) float64 {
-	switch r.IntN(6) {
+	switch r.IntN(7) {
+	case 6:
+		return decimalFloat(r, 1+r.IntN(17), r.IntN(640)-330)
 	case 0, 1, 2:
 		return float64(r.IntN(41) - 20)
 	case 3:
@@ -161,7 +163,7 @@ func fmtScoreVariant(r *rand.Rand, f float64) string {
 	isInt := f == math.Trunc(f) && math.Abs(f) < 1e15
 	switch r.IntN(8) {
 	case 0:
-		if f >= 0 {
+		if f >= 0 && !math.Signbit(f) {
 			return "+" + fmtScore(f)
 		}
 	case 1:
@@ -335,6 +337,7 @@ func init() {
 		Units: []Unit{
 			{Name: "readncbi", TShards: 4, Run: c20Read},
 			{Name: "corrupt", TShards: 4, Run: c20Corrupt},
+			{Name: "decimals", QShards: 2, TShards: 8, Run: c20Decimals},
 			{Name: "symmetrical", TShards: 4, Run: c20Symmetrical},
 			{Name: "gostring", TShards: 4, Run: c20GoString},
 			{Name: "readers", Race: true, TShards: 2, Run: c20Readers},
@@ -768,5 +771,51 @@ func c20Compiled(c *Ctx) {
 			}
 			k.Nontrivial(formatted)
 		})
+	}
+}
+
+// c20Decimals: tables whose scores are short decimal numbers — one 24 x 24
+// table per decimal exponent −330 … 309, every digit count 1..17 in it, in the
+// plain and the variant spellings — recovered bit for bit.
+func c20Decimals(c *Ctx) {
+	labels := []byte("ARNDCQEGHILKMFPSTWYVBZX*")
+	idx := int64(0)
+	reps := c.N(1, 6)
+	for exp := -330; exp <= 309; exp++ {
+		c.Case(idx, func(k *K) {
+			r := k.Rand()
+			for rep := 0; rep < reps; rep++ {
+				t := &ncbiTable{rows: labels, cols: labels}
+				d := 0
+				for range t.rows {
+					row := make([]float64, len(t.cols))
+					for j := range row {
+						row[j] = decimalFloat(r, 1+d%17, exp-d%17)
+						d++
+					}
+					t.scores = append(t.scores, row)
+				}
+				truth := t.truth()
+				l := genNCBILayout(r)
+				text := t.render(r, l)
+				k.Input("decimal_exponent", exp)
+				k.Input("layout", l)
+				k.Input("text", func() string { return describeText(text) })
+				m, err := smtext.ReadNCBI(bytes.NewReader(text))
+				if err != nil {
+					k.Failf("readncbi", "ReadNCBI failed on a valid table with scores around 1e%d: %v", exp, err)
+					return
+				}
+				if d := sameMatrix(m, truth); d != "" {
+					k.Failf("readncbi", "ReadNCBI result differs from the table: %s", d)
+					return
+				}
+				k.Count("tables_read", 1)
+				k.Count("decimal_scores_read", int64(len(labels)*len(labels)))
+				k.Evals(int64(len(labels) * len(labels)))
+			}
+			k.Nontrivial([]byte(fmt.Sprint("decimals", exp)))
+		})
+		idx++
 	}
 }
